@@ -189,8 +189,21 @@ def run(ctx):
                 "state of Temporal.tla), each realised as an events file (markers of a time point in one row, in "
                 "equal-onset rows, or Delay-shifted from an earlier row; unique letter-case spelling per marker); "
                 "distinct = distinct history; non-trivial = history contains an Offset/Inset or a same-time-point reuse")
-    ctx.tlc("MC_Temporal", "MC_Temporal.cfg", workers=16, coverage=True,
-            label="design: algorithm == declarative restatement, all histories <= 5", timeout=900)
+    dcfg = "MC_Temporal.cfg"
+    dmade = None
+    if quick:
+        with open(os.path.join(tlc.SPECS, dcfg)) as f:
+            txt = f.read().replace("L = 5", "L = 4")
+        dmade = os.path.join(tlc.SPECS, "MC_Temporal_q.cfg")
+        with open(dmade, "w") as f:
+            f.write(txt)
+        dcfg = "MC_Temporal_q.cfg"
+    try:
+        ctx.tlc("MC_Temporal", dcfg, workers=16, coverage=not quick,
+                label="design: algorithm == declarative restatement, all histories <= %d" % (4 if quick else 5), timeout=900)
+    finally:
+        if dmade:
+            os.remove(dmade)
     gen_cfg = "MC_Temporal_gen.cfg"
     if not quick:
         with open(os.path.join(tlc.SPECS, "MC_Temporal_gen.cfg")) as f:
